@@ -206,6 +206,7 @@ func (ex *Explorer) Assume(c *Term) {
 	k := len(ex.decisions)
 	if k < len(ex.prefix) {
 		ex.decide(1, c)
+		ex.in.tt.learnBounds(c)
 		return
 	}
 	r, _, _ := ex.check(c, false)
@@ -213,6 +214,7 @@ func (ex *Explorer) Assume(c *Term) {
 		panic(&pathEnd{"infeasible", "assumption unsatisfiable on this path"})
 	}
 	ex.decide(1, c)
+	ex.in.tt.learnBounds(c)
 }
 
 // AssertI: interpreter-only assertion (natively a no-op): its trace line starts with '#' so that
@@ -565,6 +567,7 @@ func (ex *Explorer) runPath(h *ssa.Function, prefix []int) (out pathOutcome) {
 	ex.prefix = prefix
 	ex.decisions = ex.decisions[:0]
 	ex.pc = ex.pc[:0]
+	ex.in.tt.resetShadows() // interval facts learnt from assumptions are path-local
 	ex.nondets = ex.nondets[:0]
 	ex.newItems = nil
 	ex.trace = nil
